@@ -15,6 +15,7 @@ mod world;
 mod crypto;
 mod hosts;
 mod http;
+mod keeper;
 mod seams;
 mod smoke;
 
